@@ -211,6 +211,59 @@ func init() {
 			})
 		}
 	}
+	// a third alphabet: lines made of the marker characters themselves. The blank after a bullet is optional, so "---" is
+	// the item "--", "****" the item "***", "-- -" the item "- -"; "___" has no bullet, "###" no text. Every sequence of
+	// up to four lines, all modes.
+	third := props["C02"]
+	props["C02"] = func(c *rep.Ctx) {
+		third(c)
+		u := "  "
+		alpha := []string{"- a", u + "- b", "---", "***", "+++", "--", "**", "-- -", u + "---", u + "****", u + "--", "- ---", "___", "###", "## #", "----  ", u + u + "- c", u + "+++"}
+		c.Bound("marker_alphabet_max_lines", "4")
+		for L := 1; L <= 4 && !c.Expired(); L++ {
+			enum.Tuples(L, len(alpha), func(t []int) {
+				if !c.Take() || c.Expired() {
+					return
+				}
+				doc := strings.Join(enum.Pick(alpha, t), "\n") + "\n"
+				sp := model.ParseSpec(doc)
+				if sp.Verdict == model.OutOfDomain {
+					return
+				}
+				c.StateN(1)
+				c.Inc("marker_alphabet_documents")
+				c.Nontrivial()
+				c02Judge(c, doc, sp, "text")
+				c02Judge(c, doc, sp, "walk")
+				if L <= 3 {
+					c02Judge(c, doc, sp, "json")
+					c02Judge(c, doc, sp, "text-noiter")
+				}
+			})
+		}
+		// the size sweep (enum/size.go): well-formed documents of every depth and width are rendered completely
+		upTo, far, deepTo, deepFar := 300, 1030, 160, 260
+		if c.Thorough() {
+			upTo, far, deepTo, deepFar = 1100, 4100, 300, 1030
+		}
+		c.Bound("size_sweep_width_every_integer_up_to", fmt.Sprint(upTo))
+		c.Bound("size_sweep_depth_every_integer_up_to", fmt.Sprint(deepTo))
+		c.Bound("size_sweep_depth_power_of_two_neighbours_up_to", fmt.Sprint(deepFar))
+		sweep := func(s enum.SizeShape) {
+			if !c.Take() || c.Expired() {
+				return
+			}
+			doc := enum.Spell(s.D, s.Names, enum.Spelling{Unit: "  ", Bullets: []byte("-")})
+			sp := model.ParseSpec(doc)
+			c.StateN(1)
+			c.Inc("size_sweep_cases")
+			c02Judge(c, doc, sp, "walk")
+			c02Judge(c, doc, sp, []string{"text", "json", "text-noiter"}[s.Size%3])
+		}
+		enum.DeepShapes(enum.Sizes(deepTo, deepFar), sweep)
+		enum.WideShapes(enum.Sizes(upTo, far), sweep)
+		enum.TwinShapes(sweep) // sibling names that agree on cheap fingerprints (enum/twins.go)
+	}
 	// big documents: a well-formed filler of F bytes (many small roots with distinct names) followed by every tail of up to
 	// two alphabet lines; the verdict, the offending line and the completeness of the rendering must not depend on how
 	// much text came before (internal buffers are refilled and moved while earlier nodes are still held)
